@@ -10,11 +10,11 @@ SEQ = {
     # property: (monitor flags, quick plan, thorough plan, DESIGN.md section)
     'C01': (['C01'], [('direct', 4, F), ('single1', 3, F), ('single2', 3, F), ('single3', 3, F), ('errops', 3, F), ('multi', 3, R), ('depth2', 3, F)],
             [('direct', 5, F), ('single1', 4, F), ('single2', 4, F), ('single3', 4, R), ('errops', 4, F), ('multi', 4, R), ('depth2', 4, F)], '6 C01'),
-    'C02': (['REF', 'TAP'], [('creators', 2, F), ('single1', 4, F), ('single2', 4, F), ('single3', 3, F)],
+    'C02': (['REF', 'TAP'], [('creators', 2, F), ('single1', 4, F), ('single2', 4, F), ('single3', 3, F), ('c14', 2, F)],
             [('creators', 3, F), ('single1', 5, F), ('single2', 5, F), ('single3', 4, R), ('depth2', 4, F)], '6 C02'),
-    'C06': (['C06'], [('single1', 3, F), ('single2', 3, F), ('single3', 3, F), ('errops', 3, F), ('multi', 3, R), ('endless', 2, F)],
-            [('single1', 4, F), ('single2', 4, F), ('single3', 4, R), ('errops', 4, F), ('multi', 4, R), ('endless', 3, F), ('depth2', 4, F)], '6 C06'),
-    'C03': (['REF'], [('multi', 4, R)], [('multi', 5, R), ('multi3', 4, F)], '6 C03'),
+    'C06': (['C06'], [('single1', 3, F), ('single2', 3, F), ('single3', 3, F), ('errops', 3, F), ('multi', 3, R), ('endless', 2, F), ('flatdeep', 7, F)],
+            [('single1', 4, F), ('single2', 4, F), ('single3', 4, R), ('errops', 4, F), ('multi', 4, R), ('endless', 3, F), ('depth2', 4, F), ('flatdeep', 8, R)], '6 C06'),
+    'C03': (['REF'], [('multi', 4, R), ('c14', 2, F)], [('multi', 5, R), ('multi3', 4, F)], '6 C03'),
     'C04': (['REF'], [('errops', 4, F)], [('errops', 5, F), ('errdeep', 4, F)], '6 C04'),
     'C05': (['C05'], [('direct', 4, F), ('single1', 3, F), ('single2', 3, F), ('single3', 3, F), ('errops', 3, F), ('multi', 3, R), ('subjects', 4, R)],
             [('direct', 5, F), ('single1', 4, F), ('single2', 4, F), ('single3', 4, R), ('errops', 4, F), ('multi', 4, R), ('subjects', 5, R), ('depth2', 4, F)], '6 C05'),
@@ -40,11 +40,18 @@ def subjconc(kind, n, unsub, expect=None):
             % (kind, n, 'TRUE' if unsub else 'FALSE'), expect)
 
 
+def schedqueue(nc, ops, aborting, tag):
+    return ('SchedQueue', 'schedqueue_' + tag,
+            'SPECIFICATION Spec\nCONSTANTS NClients = %d\n MaxOps = %d\n AbortingTasks = %s\n SpuriousWake = TRUE\n'
+            'INVARIANTS OneAtATime AtMostOnce OnlyPosted Fifo NothingTakenAfterAbortReturned\nPROPERTIES NoLostWakeup WorkerExitsAfterAbort\nCHECK_DEADLOCK TRUE\n' % (nc, ops, aborting))
+
+
 C19INV = ['AtMostOneTerminal', 'NothingStartedAfterTerminal', 'ExactlyOneAtTheEnd']
 CONC = {
     # property: (monitor flags of ConcProps.Judge, design-level models quick, thorough)
     'C19': (['C19'], [sinkconc(2, 2, C19INV)], [sinkconc(2, 2, C19INV), sinkconc(3, 1, C19INV), sinkconc(2, 3, C19INV)]),
     'C11': (['C11', 'C19'], [sinkconc(2, 2, ['AtMostOneTerminal'])], [sinkconc(3, 1, ['AtMostOneTerminal'])]),
+    'C08': (['C08'], [schedqueue(2, 2, '{11}', '2x2_abort_inside')], [schedqueue(2, 2, '{11}', '2x2_abort_inside'), schedqueue(2, 3, '{}', '2x3'), schedqueue(3, 1, '{11}', '3x1')]),
     'C12': (['C12'], [subjconc('plain', 3, False), subjconc('plain', 3, True), subjconc('replay', 3, False, 'NoDup (KF-C12-replay-latesub-duplicate)'), subjconc('behavior', 3, False, 'NoDup (KF-C12-behavior-latesub-duplicate)')],
             [subjconc('plain', 4, False), subjconc('plain', 4, True), subjconc('replay', 4, False, 'NoDup (KF-C12-replay-latesub-duplicate)'), subjconc('behavior', 4, True, 'NoDup (KF-C12-behavior-latesub-duplicate)')]),
     'C05': (['C05'], [sinkconc(2, 2, ['UnsubStops'])], [sinkconc(2, 3, ['UnsubStops']), sinkconc(3, 1, ['UnsubStops'])]),
